@@ -644,6 +644,7 @@ def oracle(ctx, case, impl, report_case=None):
         raised_ev = any(e[0] == 'call' and e[4] is None for e in evs)
         verdicts = [case['vb']] if it is None else [it['v1'], it['v2'], it['v3']]
         killed = raised_ev and KILL in verdicts and last and fin == CRASHED
+        unanswered = False
         if raised_ev:
             # whatever a callback raises ends the session; an Exception subclass or a gevent.Timeout is
             # answered with a final 421, only a kill (GreenletExit) goes unanswered
@@ -651,6 +652,7 @@ def oracle(ctx, case, impl, report_case=None):
                 ctx.fail('c07:raising-callback-session-continues', rc, 'command #%d %r: a callback raised, the session went on (replies %r)' % (i, ln, reps))
             elif not killed and not (reps and reps[-1] == 421):
                 fam = 'gevent.Timeout' if TIMEOUT in verdicts else 'exception'
+                unanswered = True
                 ctx.fail('c07:callback-timeout-unanswered' if TIMEOUT in verdicts else 'c07:raising-callback-unanswered', rc,
                          'command #%d %r: its callback raised (%s) and the line got no final 421 reply: replies %r, session ended by %s' % (
                              i, ln, fam, reps, impl['exc'] or 'the server'))
@@ -672,7 +674,7 @@ def oracle(ctx, case, impl, report_case=None):
             ok = len(final) == 1 and all(c in (354, 334) for c in inter) and (final[0] not in (354, 334))
             if ok and inter:
                 ok = (w == b'DATA' and inter == (354,)) or (w == b'AUTH' and set(inter) == {334} and len(inter) <= len(it['resps']))
-            if not ok and not tls_fail:
+            if not ok and not tls_fail and not unanswered:
                 key = 'c07:one-final-reply'
                 if len(it['line']) > 512 and len(reps) != 1:
                     key = 'c07:long-line-several-replies'
@@ -689,7 +691,7 @@ def oracle(ctx, case, impl, report_case=None):
                     ctx.fail('c07:edge-envelope-survives-rejected-message' if message_done else 'c07:edge-envelope-survives-reset',
                              rc, 'after command #%d %r (replies %r) SmtpSession.envelope still holds %r' % (i, ln, reps, short(st[10])))
         else:
-            if len(reps) != 1 and not (killed and reps == ()):
+            if len(reps) != 1 and not (killed and reps == ()) and not unanswered:
                 ctx.fail('c07:one-final-reply', rc, 'connection start got replies %r' % (reps,))
         # server and edge views of the transaction agree between commands
         if st is not None and not (last and fin == CRASHED) and not (last and raised_ev):
@@ -896,7 +898,11 @@ def run(ctx):
     tx = [A0['EHLO/keep'], A0['MAIL/keep'], A0['RCPT/keep']]
     corpus = [tx + [A0[n], A0[after]] for n, after in [
         ('DATA/have_data=550', 'MAIL/keep'),
-        ('DATA/have_data=421', 'NOOP'), ('DATA/queued=421', 'NOOP'), ('DATA/relay-error-421', 'NOOP'), ('DATA/have_data=221', 'NOOP'), ('DATA/over-size', 'MAIL/keep'), ('DATA/have_data=450', 'RCPT/keep'), ('DATA/queue-error', 'RCPT/keep')]]
+        ('DATA/have_data=421', 'NOOP'), ('DATA/queued=421', 'NOOP'), ('DATA/relay-error-421', 'NOOP'), ('DATA/have_data=221', 'NOOP'), ('DATA/over-size', 'MAIL/keep'), ('DATA/have_data=450', 'RCPT/keep'), ('DATA/queue-error', 'RCPT/keep'),
+        # a callback that runs into a gevent.Timeout of its own / is killed (seed C07-10)
+        ('RCPT/raise-gevent.Timeout', 'NOOP'), ('DATA/raise-gevent.Timeout', 'NOOP'), ('DATA/have_data=raise-gevent.Timeout', 'NOOP'),
+        ('DATA/queued=raise-gevent.Timeout', 'NOOP'), ('RCPT/raise-GreenletExit', 'NOOP'), ('DATA/have_data=raise-GreenletExit', 'NOOP')]]
+    corpus += [[A0['EHLO/raise-gevent.Timeout'], A0['NOOP']], [A0['EHLO/keep'], A0['MAIL/raise-gevent.Timeout'], A0['NOOP']]]
     check_cases(ctx, [dict(cfg=cfgs[0], vb=KEEP, items=c) for c in corpus], 'corpus', lambda c, i, m: notes(ctx, c, i))
     tot_states = tot_trans = 0
     per_cfg = {}
